@@ -16,6 +16,7 @@ from .. import rig as R, ref, gen, dump, hist, faults, subm
 from ..orch import h
 
 ID = "C10"
+TECHNIQUE = 'runtime monitoring - structural invariant walker over LMDB snapshots (every index key has its record, every record all its keys, re-derived by an independent layout oracle) after every operation, during writer bursts, after injected engine errors and after a second process used the environment; get_event compared with the keyspace'
 LEVEL = "fault_enumeration"
 RULE = (
     "cases = (seeded history of 20-60 operations on the LMDB backend: add, resubmit, author deletion, replaceable / "
